@@ -212,6 +212,11 @@ class Check:
             cov.update(extra)
         if not cov["samples"]:
             cov["samples"] = ["(no sample recorded)"]
+        # the keys the evidence schema types as counts must be counts (a string there makes the file invalid)
+        for k in ("evaluations", "distinct_nontrivial", "states", "transitions", "traces_validated_against_impl", "obligations",
+                  "discharged", "programs", "disagreements_checked"):
+            if k in cov and (isinstance(cov[k], bool) or not isinstance(cov[k], int)):
+                raise ToolError("evidence: coverage.%s must be an integer, got %r" % (k, cov[k]))
         ev = {"property_id": self.pid, "tier": self.tier, "seed": seed(), "level": self.level, "coverage": cov,
               "assumptions": self.assumptions, "wall_s": round(time.time() - self.t0, 2),
               "violations": len(self.violations), "known_findings": self.known}
